@@ -210,6 +210,14 @@ pub fn lipsum(
             "lipsum text would be too large",
         ));
     }
+    // the number of words per paragraph is drawn from min..max: a lower bound
+    // above the upper one is not a range (and would size the text by `min`).
+    if min > max {
+        return Err(Error::new(
+            minijinja::ErrorKind::InvalidOperation,
+            "lipsum min must not be larger than max",
+        ));
+    }
     let mut rv = String::new();
 
     let rng = crate::rand::XorShiftRng::for_state(state);
